@@ -88,3 +88,20 @@ UNICODE_TRAPS = (
 # text that is harmless as DATA but special as a TEMPLATE: %-formatting, str.format, re.sub replacement strings,
 # backslash escapes - wherever a value or a whole line is spliced into a message or a pattern
 FORMAT_TRAPS = ("%", "100%", "%d", "%s", "%(x)s", "%%", "{0}", "{}", "{x}", "{{", "}", "\\", "\\n", "\\1", "\\g<0>", "$1", "${x}", "\\d+", "(?P<x>", "[a-", "*")
+
+
+def song_envs(res):
+    """[Song] bodies that all say `Resolution = res` and nothing else about timing: free-text values that quote
+    other fields' lines (a value is data, never a field line), numeric fields with values different from the
+    resolution, the Resolution line first / last / in the middle. Every chart property that depends on the
+    resolution must be the same under all of them."""
+    r = "Resolution = %d" % res
+    other = 1080 if res != 1080 else 960
+    return (
+        ['Name = "Resolution = %d"' % other, r],
+        [r, 'Name = "Resolution = %d"' % other],
+        ['Name = "my Resolution = %d"' % other, 'Charter = "Offset = 7"', r, 'Album = "  Resolution = 3"'],
+        ["Offset = %d" % other, "Difficulty = %d" % (other + 1), r, "PreviewStart = 3", "PreviewEnd = %d" % (other + 2)],
+        ['Artist = "a"', "Player2 = bass", r, 'MusicStream = "Resolution = 5.ogg"', 'Genre = "Resolution"', 'Year = ", Resolution = 9"'],
+        ['MediaType = "Resolution = \\"%d\\""' % other, 'Name = "x = y = Resolution = %d"' % other, r, "Offset = 0"],
+    )
